@@ -536,7 +536,7 @@ func c14GenParam(t *rapid.T, input string, pool []c14Node) c14P {
 	}
 	switch kind := rapid.SampledFrom(kinds).Draw(t, "kind"); kind {
 	case "":
-		if rapid.IntRange(0, 7).Draw(t, "mangle") == 0 {
+		if rapid.IntRange(0, 5).Draw(t, "mangle") == 0 {
 			subject = rapid.SampledFrom([]string{strings.ToLower(subject), strings.ToUpper(subject), subject + " ", " " + subject, subject + "2"}).Draw(t, "mangled")
 		}
 		return c14P{"", subject}
@@ -548,8 +548,8 @@ func c14GenParam(t *rapid.T, input string, pool []c14Node) c14P {
 		i := rapid.IntRange(0, len(rs)-1).Draw(t, "i")
 		j := rapid.IntRange(i+1, len(rs)).Draw(t, "j")
 		kw := strings.Join(rs[i:j], "")
-		if rapid.IntRange(0, 9).Draw(t, "kwcase") == 0 {
-			kw = strings.ToLower(kw)
+		if rapid.IntRange(0, 5).Draw(t, "kwcase") == 0 {
+			kw = rapid.SampledFrom([]string{strings.ToLower(kw), strings.ToUpper(kw)}).Draw(t, "kwcased")
 		}
 		return c14P{"keyword", kw}
 	default:
@@ -605,7 +605,7 @@ func c14GenCall(t *rapid.T, pool []c14Node, direct bool) c14Call {
 // c14GenDef: a valid definition, then (sometimes) 1-2 invalid elements injected at
 // rapid-chosen positions. direct=false restricts to what the text grammar can say.
 func c14GenDef(t *rapid.T, pool []c14Node, direct bool) (def c14Def, injected []string) {
-	nl := rapid.SampledFrom([]int{0, 1, 1, 1, 2, 2, 2, 3, 3, 4}).Draw(t, "nlines")
+	nl := rapid.SampledFrom([]int{1, 2, 1, 2, 3, 1, 2, 3, 4, 0}).Draw(t, "nlines")
 	for i := 0; i < nl; i++ {
 		var l c14Line
 		nc := rapid.SampledFrom([]int{1, 1, 1, 2, 2, 3}).Draw(t, "ncalls")
